@@ -239,11 +239,15 @@ class BDictSort(Sort):
         self.kelem = kelem
 
     def __repr__(self):
-        return "BDict" if self.kelem == "ballot" else "SDict"
+        return {"ballot": "BDict", "strseq": "SDict", "rankseq": "RDict"}[self.kelem]
+
+    def keyseq(self):
+        return {"ballot": SeqBallot, "strseq": SeqSeqStr, "rankseq": z3.SeqSort(SeqCSet)}[self.kelem]
 
 
 BDict = BDictSort()
 SDict = BDictSort("strseq")
+RDict = BDictSort("rankseq")  # dict[tuple[frozenset[str], ...], Fraction]: keys are rankings, compared structurally
 SeqSeqStr = z3.SeqSort(z3.SeqSort(PyStr))
 
 
@@ -432,7 +436,7 @@ def fresh(sort: Sort, name: str) -> V:
     if isinstance(sort, LDictSort):
         return VLDict(z3.Const(n + "_lkeys", CSetS), z3.Const(n + "_lvals", LMapS))
     if isinstance(sort, BDictSort):
-        return VBDict(z3.Const(n + "_bkeys", SeqBallot if sort.kelem == "ballot" else SeqSeqStr), z3.Const(n + "_bvals", z3.SeqSort(z3.RealSort())), sort.kelem)
+        return VBDict(z3.Const(n + "_bkeys", sort.keyseq()), z3.Const(n + "_bvals", z3.SeqSort(z3.RealSort())), sort.kelem)
     if isinstance(sort, TBDict):
         return VTBDict(z3.Bool(n + "_has"), z3.Const(n + "_key", CSetS), z3.Const(n + "_val", SeqCSet))
     if isinstance(sort, Tup):
@@ -486,7 +490,7 @@ def sort_of(v: V) -> Sort:
     if isinstance(v, VLDict):
         return LDict
     if isinstance(v, VBDict):
-        return BDict if v.kelem == "ballot" else SDict
+        return {"ballot": BDict, "strseq": SDict, "rankseq": RDict}[v.kelem]
     if isinstance(v, VTBDict):
         return TBDictS
     if isinstance(v, VTup):
